@@ -140,6 +140,21 @@ theorem malformed_iff_rejected {J : Type} (h : AbsHttp J) :
     | variables hm hv => exact Or.inr (Or.inr (Or.inr ⟨hm, Or.inl hv⟩))
     | extensions hm _ he => exact Or.inr (Or.inr (Or.inr ⟨hm, Or.inr he⟩))
 
+/-- **post_ignores_url_parameters** — on POST nothing of the query string survives: the `query`
+    parameter is read and then overwritten on every accepting branch (also by an absent or empty
+    `query` member — the quirk noted in the design), the other three are never read. -/
+theorem post_ignores_url_parameters {J : Type} (h : AbsHttp J) (hm : h.method = .post)
+    (q o : Option String) (v x : JsonParam J) :
+    decideHTTP { h with pQuery := q, pVariables := v, pOperationName := o, pExtensions := x } = decideHTTP h := by
+  simp [decideHTTP, hm]
+
+/-- **get_ignores_body_and_content_type** — on GET neither the body nor the Content-Type header is
+    looked at. -/
+theorem get_ignores_body_and_content_type {J : Type} (h : AbsHttp J) (hm : h.method = .get)
+    (media : Media) (jb : BodyOutcome J) (raw : String) :
+    decideHTTP { h with media := media, jsonBody := jb, rawBody := raw } = decideHTTP h := by
+  simp [decideHTTP, hm]
+
 section pipelines
 variable {m : Type → Type} [Monad m] [LawfulMonad m] {J Def Schema Feat Cost Ctx Doc Resp : Type}
 
@@ -440,6 +455,26 @@ end pipelines
 /-- A lawful codec / encoder pair exists over real strings (`Lemmas.lean`: a length-prefixed
     packing), so `Lawful` is not an empty hypothesis. -/
 example : ∃ (c : Codec String) (e : Encoders String), Lawful c e := ⟨packCodec, packEncoders, pack_lawful⟩
+
+/-- The net/url transliteration together with the packing codec's JSON half is lawful, so
+    `lawful_of_goUrl`'s hypotheses are satisfiable too. -/
+example : Lawful goPackCodec goPackEncoders :=
+  lawful_of_goUrl goPackCodec goPackEncoders rfl rfl
+    { map_roundtrip := fun j => by simp only [goPackCodec, goPackEncoders]; exact pack_lawful.map_roundtrip j
+      map_nonempty := fun j => by simp only [goPackEncoders]; exact pack_lawful.map_nonempty j
+      body_roundtrip := fun r => by simp only [goPackCodec, goPackEncoders]; exact pack_lawful.body_roundtrip r
+      media_json := by simp only [goPackCodec]; exact pack_lawful.media_json
+      media_graphql := by simp only [goPackCodec]; exact pack_lawful.media_graphql
+      message_roundtrip := fun ty id p => by
+        simp only [goPackCodec, goPackEncoders]; exact pack_lawful.message_roundtrip ty id p
+      payload_roundtrip := fun q v op => by
+        simp only [goPackCodec, goPackEncoders]; exact pack_lawful.payload_roundtrip q v op }
+
+/-- The URL law on a concrete query string with everything that needs escaping. -/
+example : Url.goUrlGet (Url.goUrlEncode [("query", "{ a(x: \"ü&=;%+ \") }"), ("variables", "{\"k\":1}")]) "query"
+    = some "{ a(x: \"ü&=;%+ \") }" := by
+  rw [Url.goUrl_get_encode]
+  rfl
 
 /-- Instantiating `transports_agree` with that codec, the identity monad and a pipeline that echoes
     its request: GET and graphql-transport-ws deliver the same (non-trivial) response. -/
